@@ -61,7 +61,7 @@ KINDS = ['assign', 'emit', 'val', 'str', 'for', 'def', 'call', 'if', 'raise', 'r
          'float', 'tuple', 'printmulti', 'escstr', 'forval', 'ifval', 'onlyblank', 'ied_dot', 'print_then_raise', 'raise_noted', 'raise_syntax',
          'raise_group', 'raise_chained', 'raise_nomsg', 'blank_run', 'blank_edges', 'oneline_for', 'oneline_raise',
          'oneline_ied', 'oneline_silent', 'two_options_ws', 'skip_two_options_ws', 'echo_then_comment',
-         'semi_echo_comment', 'comment_then_echo', 'option_on_continuation']
+         'semi_echo_comment', 'comment_then_echo', 'option_on_continuation', 'skip_comment_first']
 # compound statements written on one line: the interactive interpreter wants a bare '...' line behind them
 ONELINE = ('oneline_for', 'oneline_raise', 'oneline_ied', 'oneline_silent')
 
@@ -177,6 +177,10 @@ def gen_example(rng, i, defined):
         src = ['# explanation first', 'for k in range(2):', '    val(%d)' % i]
     elif k == 'option_on_continuation':
         src = ['for w in ["spam%d", "eggs"]:' % i, '    str(val(%d)) + w' % i, '# doctest: +ELLIPSIS']
+    elif k == 'skip_comment_first':
+        # the option stands in a comment on the first line, the code it applies to on the continuation lines: it is
+        # this example's option, the examples behind it are not touched
+        src = ['# doctest: +SKIP', 'boom(%d)' % i]
     elif k == 'oneline_for':
         src = ['for k in range(2): emit(%d)' % i]
     elif k == 'oneline_raise':
@@ -249,13 +253,13 @@ def make(seed):
         want = []
         for src in chunks:
             term = rng.random() < 0.3 and len(src) > 1
-            if len(src) == 1 and k not in ('skip', 'comment_ex', 'skip_two_options_ws'):
+            if len(src) == 1 and k not in ('skip', 'comment_ex', 'skip_two_options_ws', 'skip_comment_first'):
                 # the bare '...' the interactive interpreter shows after a one-line compound statement (rarely pasted
                 # after a simple statement too); xdoctest reads it as the first line of the want
                 if rng.random() < (0.8 if k in ONELINE else 0.05):
                     term = True
                     feats.add('terminated-one-liner' + (':raises' if k in ('oneline_raise', 'oneline_ied') else ''))
-            if k in ('skip', 'comment_ex', 'skip_two_options_ws'):
+            if k in ('skip', 'comment_ex', 'skip_two_options_ws', 'skip_comment_first'):
                 out, before, value, exc = '', '', None, None
             else:
                 out, before, value, exc = repl_run(ns, src)
